@@ -17,6 +17,8 @@ from ..expr import show, walk
 from ..pathcond import PathA, calls_to, field_stores
 from . import C05
 
+from ..roles import upvar_index  # noqa: E402
+
 LEVEL = "other"
 PCE = C05.PCE
 LOG_WRITERS = {CONN + "::register_packet", CONN + "::handle_srt_ack", CONN + "::handle_nak", CONN + "::handle_srtla_ack_specific",
@@ -239,7 +241,7 @@ def d3_cumulative_ack_shape(ctx):
             nst = len(pce.blocks[bb]["stmts"])
             link = ppa.fa.val_operand(t["args"][0], (bb, nst))
             ack = ppa.fa.val_operand(t["args"][1], (bb, nst))
-            up = [i for i, n in pce.upvar_names.items() if n == "connections"]
+            up = [i for i in [upvar_index(pce, "connections")] if i is not None]
             full = bool(up) and full_slice_element(link, ("upvar", up[0])) is not None
             from_acks = any(is_field(x, "ack_numbers") for x in walk(ack))
             # unconditional inside the two loops: relative to the outer loop's entry only iterator atoms remain
@@ -310,8 +312,8 @@ def d5_srtla_ack_attribution(ctx, rule="D5"):
     sites = calls_to(pce, stable=CONN + "::handle_srtla_ack_specific")
     ctx.WHO_CALLS(rule, CONN + "::handle_srtla_ack_specific", {PCE}, floor=2)
     ctx.WHO_CALLS(rule, CONN + "::handle_srtla_ack_global", {PCE}, floor=1)
-    idx = [i for i, n in pce.upvar_names.items() if n == "idx"]
-    conns = [i for i, n in pce.upvar_names.items() if n == "connections"]
+    idx = [i for i in [upvar_index(pce, "idx")] if i is not None]
+    conns = [i for i in [upvar_index(pce, "connections")] if i is not None]
     if len(sites) != 2 or not idx or not conns:
         ctx.chk.ob(rule, "two SRTLA ACK attribution sites", False, "%d sites" % len(sites), key=rule + ":site-shape")
         return
